@@ -9,13 +9,19 @@
    lines of `AccountSelectorChecksum::text`.  md = [] when the transaction set has no metadata
    (then the account-selector checksum block is not written either: it sits inside the same
    `if let Some(md)`).  The rendering of the items themselves is not modelled.
+   In the same way the WORDING of the comment block written when the selected balances of a
+   commodity already cancel is an input: `warn` = the texts of its comment lines (what follows
+   "   ; ", like the lines of a metadata item).  No property speaks about that wording (C10 is
+   about the postings).  WHEN the block is written is decided here, as the code decides it: iff
+   dsum.is_zero() (e_warn), between the metadata block and the first posting line.
+   default_warn_lines = the five lines the code writes today.
 
    Rust                                                   here
      hdr_str(last_txn, c)                                  eq_hdr_str        (rfc_3339 = Journal.print_ts,
                                                                               description = Equity.eq_desc)
      format!("{}; {}", eq_txn_indent, v)                   eq_comment v
      per item: its lines, then format!("{}; ", indent)     eq_md_item
-     the five WARNING lines  (iff dsum.is_zero())          eq_warning_lines  (e_warn)
+     the WARNING comment lines (iff dsum.is_zero())        eq_warn_lines warn  (e_warn; wording = input)
      eq_postings: "{indent}{account}  {sum}[ {comm}]"      eq_post_line      (Decimal Display = Journal.print_dec)
      bal_posting: "{indent}{ea}  {-dsum}[ {c}]" (iff !zero) eq_post_line on e_bal
      eq_txn.push("")                                       the empty line closing every transaction
@@ -38,14 +44,16 @@ Definition eq_comment (v : list N) : list N := eq_indent ++ [59; 32]%N ++ v.
 Definition eq_md_item (it : list (list N)) : list (list N) := map eq_comment it ++ [eq_comment []].
 Definition eq_md_lines (md : list (list (list N))) : list (list N) := flat_map eq_md_item md.
 
-(* the texts of the five warning comments *)
-Definition eq_warnings : list (list N) :=
+(* the texts of the five warning comments as written today *)
+Definition default_warn_lines : list (list N) :=
   [ [87; 65; 82; 78; 73; 78; 71; 58]%N;
     [87; 65; 82; 78; 73; 78; 71; 58; 32; 84; 104; 101; 32; 115; 117; 109; 32; 111; 102; 32; 101; 113; 117; 105; 116; 121; 32; 116; 114; 97; 110; 115; 97; 99; 116; 105; 111; 110; 32; 105; 115; 32; 122; 101; 114; 111; 32; 119; 105; 116; 104; 111; 117; 116; 32; 101; 113; 117; 105; 116; 121; 32; 97; 99; 99; 111; 117; 110; 116; 46]%N;
     [87; 65; 82; 78; 73; 78; 71; 58; 32; 84; 104; 101; 114; 101; 102; 111; 114; 101; 32; 116; 104; 101; 114; 101; 32; 105; 115; 32; 110; 111; 32; 101; 113; 117; 105; 116; 121; 32; 112; 111; 115; 116; 105; 110; 103; 32; 114; 111; 119; 44; 32; 97; 110; 100; 32; 116; 104; 105; 115; 32; 105; 115; 32; 112; 114; 111; 98; 97; 98; 108; 121; 32; 110; 111; 116; 32; 114; 105; 103; 104; 116; 46]%N;
     [87; 65; 82; 78; 73; 78; 71; 58; 32; 73; 115; 32; 116; 104; 101; 32; 97; 99; 99; 111; 117; 110; 116; 32; 115; 101; 108; 101; 99; 116; 111; 114; 32; 99; 111; 114; 114; 101; 99; 116; 32; 102; 111; 114; 32; 116; 104; 105; 115; 32; 69; 113; 117; 105; 116; 121; 32; 101; 120; 112; 111; 114; 116; 63]%N;
     [87; 65; 82; 78; 73; 78; 71; 58]%N ].
-Definition eq_warning_lines : list (list N) := map eq_comment eq_warnings.
+(* the warning block: every text as a comment line, like the lines of a metadata item (no
+   closing empty comment) *)
+Definition eq_warn_lines (warn : list (list N)) : list (list N) := map eq_comment warn.
 
 (* format!("{}{}  {}{}", indent, account, sum, " " + comm iff the commodity name is not empty);
    the balancing posting has the same shape: format!("{}{}  {}", indent, ea, value) with
@@ -55,17 +63,17 @@ Definition eq_post_line (p : eq_post) : list N :=
   ++ (match ep_comm p with [] => [] | c => 32%N :: c end).
 
 (* the strings pushed for one commodity (the closure inside flat_map) *)
-Definition eq_txn_lines (md : list (list (list N))) (e : eq_txn) : list (list N) :=
+Definition eq_txn_lines (md : list (list (list N))) (warn : list (list N)) (e : eq_txn) : list (list N) :=
   eq_hdr_str e
   :: eq_md_lines md
-  ++ (if e_warn e then eq_warning_lines else [])
+  ++ (if e_warn e then eq_warn_lines warn else [])
   ++ map eq_post_line (e_posts e)
   ++ (match e_bal e with Some b => [eq_post_line b] | None => [] end)
   ++ [[]].
 
-Definition eq_lines (md : list (list (list N))) (es : list eq_txn) : list (list N) :=
-  flat_map (eq_txn_lines md) es.
+Definition eq_lines (md : list (list (list N))) (warn : list (list N)) (es : list eq_txn) : list (list N) :=
+  flat_map (eq_txn_lines md warn) es.
 
 (* writeln! of every string; nothing at all for an empty balance (es = []) *)
-Definition print_equity (md : list (list (list N))) (es : list eq_txn) : list N :=
-  concat (map (fun l => l ++ [10%N]) (eq_lines md es)).
+Definition print_equity (md : list (list (list N))) (warn : list (list N)) (es : list eq_txn) : list N :=
+  concat (map (fun l => l ++ [10%N]) (eq_lines md warn es)).
